@@ -132,7 +132,7 @@ def check_raise_catch(ctx):
                 if (recv and v == recv) or (not recv and v.endswith(
                         '.rules') and v.split('.')[0] in f.params):
                     sites.append((f, n, pm))
-    ctx.floor('C03.RAISE-CATCH', len(sites), 2, 'rule-store lookups')
+    ctx.floor('C03.RAISE-CATCH', len(sites), 1, 'rule-store lookups')
     for f, n, pm in sites:
         caught = set()
         handlers = []
